@@ -634,7 +634,15 @@ let suite_dumpcheck (line : string) : string =
               (user_keys all))
           (seq :: snaps)
       in
-      Printf.sprintf "%s shape=%d getpath=%d views=%s" id (if shape then 1 else 0) (if getok then 1 else 0)
+      (* the scheduling invariant on the flags of the dump: work[<scheduled><imm><manual><needs>] *)
+      let work =
+        match (try Some (between dump "work") with Not_found -> None) with
+        | Some w when String.length w = 4 ->
+            let b i = w.[i] = '1' in
+            let bad = (try between dump "bad" = "1" with Not_found -> false) in
+            if work_inv_dump (b 0) (b 1) (b 2) (b 3) bad then 1 else 0
+        | _ -> 1 in
+      Printf.sprintf "%s shape=%d getpath=%d work=%d views=%s" id (if shape then 1 else 0) (if getok then 1 else 0) work
         (String.concat ";" views)
   | _ -> failwith "bad dumpcheck case"
 
